@@ -27,10 +27,12 @@ type calleeInfo struct {
 	bindings []Val // closure free variables
 	invoke   bool
 	builtin  string
+	common   *ssa.CallCommon
 }
 
 func (x *Exec) resolveCall(st *State, fr *Frame, c *ssa.CallCommon) calleeInfo {
 	var ci calleeInfo
+	ci.common = c
 	ci.sig = c.Signature()
 	if c.IsInvoke() {
 		ci.invoke = true
